@@ -1,8 +1,8 @@
 ------------------------------ MODULE SigCache ------------------------------
 (* The verification cache (security/cert/cache.go) as a state machine: an LRU list of keys   *)
-(* known to verify.  A key is <<message-or-batch identity, claimed participants, signature   *)
-(* bytes identity>>  (after the fix of D3/D4; KeyOf with mode "old" is the key as it was:     *)
-(* batch identity dropped, participants dropped).                                            *)
+(* known to verify.  A key is <<kind (single / batch), digest of the message or batch, claimed *)
+(* participants, signature bytes identity>>  (after the fixes D3, D4, D19; MC_SigCache's       *)
+(* KeyMode "old" / "shared" are the keys as they were: participants dropped / no kind).        *)
 EXTENDS Integers, Sequences, FiniteSets, SequencesExt
 
 \* entries: sequence of keys, most recently used first
